@@ -89,7 +89,7 @@ VerbatimDecision ==
             ELSE last.kind = "err" /\ last.err = E_OPEN
 
 FailureIsStutter ==
-    (last.op \in {"seal", "open"} /\ last.kind # "ok") => last.post = last.pre
+    (last.op \in {"seal", "open", "seal_huge"} /\ last.kind # "ok") => last.post = last.pre
 
 \* positions of accepted messages strictly increase (between hook jumps)
 RcvdInOrder ==
